@@ -39,6 +39,38 @@ CHECKS = {
         technique="explicit-state breadth-first search over operation histories of the real Writer (replay-from-fresh, canonical state merging) against a reference model list",
         text="All histories over the write/flush/copy/failed-write/reopen alphabet to the stated depth are explored breadth-first on the real Writer with sound state merging; after every flush/reopen the real reader and an independent parser must return exactly the model list and the header must be unchanged; the pending buffer must match block_count after every operation.",
         note=PURE + " Depth bound stated in evidence (depth_completed)."),
+    "C09": dict(engine=E1, category="exploration", design_ref="DESIGN.md 4/C09",
+        technique="bounded exhaustive enumeration of union shapes x contexts x data x hints x options against the reference branch rule; byte-level read/write closure",
+        text="Every ordered union of 2 (thorough 3) branches over an 18-element branch pool in six contexts (incl. by-name spellings) times every D_1 datum, ambiguous record data and hints, under both tuple-notation settings: the written index must be a conforming branch, identical for raw/parsed/repeated writes, follow the C09 rule where it is defined and honour hints; reading with each named-type option and writing back must reproduce the bytes wherever the statement claims it.",
+        note=PURE + " Where the statement is silent (record and non-record branches both conform) only conformance and determinism are asserted."),
+    "C10": dict(engine=E1, category="exploration", design_ref="DESIGN.md 4/C10",
+        technique="bounded exhaustive enumeration of conforming data and every single non-conforming mutation at every position against an independent conformance predicate, four obligations per case",
+        text="validate is compared with the reference predicate on conforming D_1 data and on every single mutation at every position, for raise_errors x strict x disable_tuple_notation; accepted data must be written and round-trip, rejected data must be refused by Writer(validator=True) (fresh, after a record, and re-opened in append mode) without changing its buffers.",
+        note=PURE),
+    "C11": dict(engine=E1, category="exploration", design_ref="DESIGN.md 4/C11",
+        technique="bounded exhaustive enumeration: every family schema must parse with the reference's names; every single ill-forming mutation at every position must be rejected",
+        text="Valid side: names table and canonical form equal the reference for the family, the namespace family and re-spellings, and every JSON type a field type accepts is accepted as default. Invalid side: each listed ill-forming mutation at every position of every family schema, decimal parameters for fixed sizes 0..16 at the boundary precisions, and a hand-made list of cross-branch redefinitions must raise SchemaParseException/UnknownType.",
+        note=PURE + " Ambiguous spellings (True as number, scale 0.0, precision 0) are kept out of the mutation alphabet."),
+    "C13": dict(engine=E1, category="exploration", design_ref="DESIGN.md 4/C13",
+        technique="bounded exhaustive enumeration of every single cosmetic rewrite at every position against a rule-list canonicaliser",
+        text="For every family schema and namespace re-spelling, every single cosmetic rewrite at every position (pairs in thorough) must leave to_parsing_canonical_form equal to the reference text; the text is a fixed point, parses, and encodes/decodes D_1 data identically to the original.",
+        note=PURE + " Schemas whose specification canonical form is itself lossy (null-namespace type nested in a namespace) are excluded from the fixed-point/encoding clauses and counted."),
+    "C16": dict(engine=E1, category="exploration", design_ref="DESIGN.md 4/C16",
+        technique="exhaustive enumeration of whole or factored value domains of each logical type against integer-arithmetic conversions",
+        text="All 3.65M dates; every second x sub-second set (+ dense ranges) for the time types; boundary years/days, month ends, every whole-minute offset at boundary instants for the four timestamp types; single-bit UUIDs; every coefficient x exponent x sign for precisions 1..3 (thorough 4) x every scale x bytes and fixed sizes, plus size boundaries to 16 bytes: representation bytes, round trip and the must-raise clause are checked.",
+        note=PURE + " TZ=UTC for naive values under timestamp types."),
+    "C17": dict(engine=E3, category="model_checking", design_ref="DESIGN.md 4/C17",
+        technique="explicit-state breadth-first search over call histories on a re-imported library with snapshot merging, plus all ordered pairs; baselines from fresh interpreter processes",
+        text="55 colliding public calls; BFS over histories where a state is the canonical snapshot of every mutable global/function default/class attribute of fastavro plus the argument pool, closed frontier (all finite histories over the alphabet, under the snapshot assumption) and, independently of the snapshot, every ordered pair of calls; each transition checks result == fresh-process baseline and argument objects intact.",
+        note=PURE + " Snapshot completeness is an assumption for the closure claim; the all-pairs pass does not rely on it."),
+    "C18": dict(engine=E4, category="model_checking", design_ref="DESIGN.md 4/C18",
+        technique="stateless schedule exploration of real threads under a sys.settrace baton scheduler, iterative preemption bounding (all schedules with <= b preemptions)",
+        text="All unordered pairs (incl. self-pairs) of 14 operations chosen for the shared state they touch, two real threads on distinct streams sharing parsed schemas; every schedule with at most 1 preemption (2 for the small pairs; thorough 2/3, opcode granularity in the shared-state files, triples) is executed at line granularity and each thread's result compared with its solo result.",
+        note=PURE + " Code outside /repo/fastavro is atomic in this model; bound stated per unit in the evidence."),
+    "C20": dict(engine=E2, category="model_checking", design_ref="DESIGN.md 4/C20",
+        technique="model checking of the environment: the library's random source is scripted and every answer sequence within a deviation bound is explored (stateless DFS with prefix replay)",
+        text="For every family schema, every logical type and recursive schemas, every execution of generate_many with at most 2 (thorough 3) non-default answers of the scripted random/uuid source is run; counts, reference conformance, validate, both writers and read-back are checked on every generated value; interleaved live generators over same-named twin schemas are explored too.",
+        note=PURE + " Answer alphabets per draw are extremes, midpoint and small values."),
     "C14": dict(
         engine=E1, category="exploration", design_ref="DESIGN.md 4/C14",
         technique="bounded exhaustive enumeration of texts x algorithm names against a bit-serial CRC reference / hashlib",
